@@ -116,6 +116,35 @@ func ruleBalance(c *Ctx, r *RuleResult, fnName, stepName, backName string) {
 		r.undecided("%s: no slice-of-interface parameter (searchers) found", fnName)
 		return
 	}
+	// When a closure captures the parameter it lives in a cell; the cell is as good as the
+	// parameter when the only store to it anywhere (Search and its closures) is the initial one.
+	var cell ssa.Value
+	if refs := searchers.Referrers(); refs != nil {
+		for _, ref := range *refs {
+			if st, ok := ref.(*ssa.Store); ok && st.Val == searchers {
+				if a, ok := st.Addr.(*ssa.Alloc); ok && onlyStore(a, st) {
+					cell = a
+				}
+			}
+		}
+	}
+	isSearchers := func(v ssa.Value) bool {
+		if v == searchers {
+			return true
+		}
+		if ld, ok := v.(*ssa.UnOp); ok && ld.Op == token.MUL && cell != nil && ld.X == cell {
+			return true
+		}
+		return false
+	}
+	isLenOfSearchers := func(v ssa.Value) bool {
+		if call, ok := v.(*ssa.Call); ok {
+			if bi, ok := call.Call.Value.(*ssa.Builtin); ok && bi.Name() == "len" && isSearchers(call.Call.Args[0]) {
+				return true
+			}
+		}
+		return P.poly(v).add(P.lenOf(searchers), -1).key() == ""
+	}
 	innermost := func(b *ssa.BasicBlock) (*ssa.BasicBlock, map[*ssa.BasicBlock]bool) {
 		var bh *ssa.BasicBlock
 		var bb map[*ssa.BasicBlock]bool
@@ -161,7 +190,7 @@ func ruleBalance(c *Ctx, r *RuleResult, fnName, stepName, backName string) {
 				iff, isIf := h.Instrs[len(h.Instrs)-1].(*ssa.If)
 				var idx ssa.Value
 				if isIf {
-					if bo, ok := iff.Cond.(*ssa.BinOp); ok && bo.Op == token.LSS && P.poly(bo.Y).add(P.lenOf(searchers), -1).key() == "" && body[h.Succs[0]] {
+					if bo, ok := iff.Cond.(*ssa.BinOp); ok && bo.Op == token.LSS && isLenOfSearchers(bo.Y) && body[h.Succs[0]] {
 						idx = bo.X
 					}
 				}
@@ -197,7 +226,7 @@ func ruleBalance(c *Ctx, r *RuleResult, fnName, stepName, backName string) {
 					// receiver is searchers[idx]
 					recvOK := false
 					if ld, ok := call.Call.Value.(*ssa.UnOp); ok && ld.Op == token.MUL {
-						if ia, ok := ld.X.(*ssa.IndexAddr); ok && ia.X == searchers && ia.Index == idx {
+						if ia, ok := ld.X.(*ssa.IndexAddr); ok && isSearchers(ia.X) && ia.Index == idx {
 							recvOK = true
 						}
 					}
@@ -325,12 +354,67 @@ func ruleBalance(c *Ctx, r *RuleResult, fnName, stepName, backName string) {
 				continue
 			}
 			tried++
-			if ok, why := balanceWith(c, fn, P, loops, loopKind, inSK, web); ok {
+			evAt := map[ssa.Instruction]string{}
+			for v, k := range web {
+				if in, ok := v.(ssa.Instruction); ok && (k == "PUSH" || k == "POP") {
+					evAt[in] = k
+				}
+			}
+			current := func(w ssa.Value, test *ssa.BasicBlock) bool {
+				if _, inWeb := web[w]; !inWeb {
+					return false
+				}
+				if win, isIn := w.(ssa.Instruction); isIn {
+					// walking back from the test, the first definition of the web met on every path is w itself
+					return firstDefIs(test, web, win)
+				}
+				return true
+			}
+			if ok, why := balanceWith(c, fn, P, loops, loopKind, inSK, evAt, current); ok {
 				r.inst("%s: steps taken and not undone == len(%s): every Step pass pairs with one push, every Backstep pass with one pop, returns only when empty", fnName, valName(seed))
 				r.oblig(true)
 				return
 			} else {
 				lastWhy = valName(seed) + ": " + why
+			}
+		}
+	}
+	// 2b. a tracking slice kept in a cell because a closure reads it: the events are the stores
+	for _, b := range fn.Blocks {
+		for _, in := range b.Instrs {
+			a, ok := in.(*ssa.Alloc)
+			if !ok {
+				continue
+			}
+			if _, isSl := a.Type().Underlying().(*types.Pointer).Elem().Underlying().(*types.Slice); !isSl {
+				continue
+			}
+			evAt, okCell := cellStack(P, a)
+			if !okCell {
+				continue
+			}
+			tried++
+			current := func(w ssa.Value, test *ssa.BasicBlock) bool {
+				ld, ok := w.(*ssa.UnOp)
+				if !ok || ld.Op != token.MUL || ld.X != ssa.Value(a) || ld.Block() != test {
+					return false
+				}
+				after := false
+				for _, x := range test.Instrs {
+					if x == ssa.Instruction(ld) {
+						after = true
+					} else if st, ok := x.(*ssa.Store); ok && after && st.Addr == ssa.Value(a) {
+						return false
+					}
+				}
+				return true
+			}
+			if ok, why := balanceWith(c, fn, P, loops, loopKind, inSK, evAt, current); ok {
+				r.inst("%s: steps taken and not undone == len(%s): every Step pass pairs with one push, every Backstep pass with one pop, returns only when empty", fnName, a.Comment)
+				r.oblig(true)
+				return
+			} else {
+				lastWhy = a.Comment + ": " + why
 			}
 		}
 	}
@@ -344,23 +428,143 @@ func ruleBalance(c *Ctx, r *RuleResult, fnName, stepName, backName string) {
 	}
 }
 
-// balanceWith checks the pairing conditions for one tracking web.
-func balanceWith(c *Ctx, fn *ssa.Function, P *Prover, loops map[*ssa.BasicBlock]map[*ssa.BasicBlock]bool, loopKind map[*ssa.BasicBlock]string, inSK func(*ssa.BasicBlock) *ssa.BasicBlock, web map[ssa.Value]string) (bool, string) {
-	evAt := map[ssa.Instruction]string{}
-	phiBlocks := map[*ssa.BasicBlock]bool{}
-	for v, k := range web {
-		in, ok := v.(ssa.Instruction)
-		if !ok {
-			continue
+// cellStack classifies every store to the slice cell a as INIT (empty slice), PUSH (append of one
+// element to the cell's current value) or POP (the current value without its last element);
+// closures capturing the cell may only read it. It fails on any other use.
+func cellStack(P *Prover, a *ssa.Alloc) (map[ssa.Instruction]string, bool) {
+	refs := a.Referrers()
+	if refs == nil {
+		return nil, false
+	}
+	// a load of a that is still current at instruction `at` (same block, no store to a in between)
+	curLoad := func(v ssa.Value, at ssa.Instruction) bool {
+		ld, ok := v.(*ssa.UnOp)
+		if !ok || ld.Op != token.MUL || ld.X != ssa.Value(a) || ld.Block() != at.Block() {
+			return false
 		}
-		switch k {
-		case "PUSH", "POP":
-			if inSK(in.Block()) != nil {
-				return false, "the stack is changed inside a Step/Backstep loop"
+		seen := false
+		for _, x := range at.Block().Instrs {
+			if x == ssa.Instruction(ld) {
+				seen = true
+				continue
 			}
-			evAt[in] = k
-		case "PHI":
-			phiBlocks[in.Block()] = true
+			if x == at {
+				return seen
+			}
+			if st, ok := x.(*ssa.Store); ok && seen && st.Addr == ssa.Value(a) {
+				return false
+			}
+		}
+		return false
+	}
+	ev := map[ssa.Instruction]string{}
+	push, pop := false, false
+	for _, ref := range *refs {
+		switch x := ref.(type) {
+		case *ssa.UnOp:
+			if x.Op != token.MUL {
+				return nil, false
+			}
+		case *ssa.DebugRef:
+		case *ssa.MakeClosure:
+			fn := x.Fn.(*ssa.Function)
+			for i, b := range x.Bindings {
+				if b == ssa.Value(a) && !onlyStore(fn.FreeVars[i], nil) {
+					return nil, false
+				}
+			}
+		case *ssa.Store:
+			if x.Addr != ssa.Value(a) {
+				return nil, false
+			}
+			switch v := x.Val.(type) {
+			case *ssa.MakeSlice:
+				if ln, isK := P.poly(v.Len).isConst(); !isK || ln != 0 {
+					return nil, false
+				}
+			case *ssa.Const:
+				if v.Value != nil {
+					return nil, false
+				}
+			case *ssa.Call:
+				bi, isB := v.Call.Value.(*ssa.Builtin)
+				if !isB || bi.Name() != "append" || len(v.Call.Args) != 2 || P.lenOf(v.Call.Args[1]).add(constP(-1), 1).key() != "" || !curLoad(v.Call.Args[0], x) {
+					return nil, false
+				}
+				ev[x] = "PUSH"
+				push = true
+			case *ssa.Slice:
+				if ln, isK := P.lenOf(v).isConst(); isK && ln == 0 {
+					if _, isPtr := v.X.Type().Underlying().(*types.Pointer); isPtr {
+						break // INIT: make([]T, 0)
+					}
+				}
+				if v.Low != nil || v.High == nil || !curLoad(v.X, x) {
+					return nil, false
+				}
+				hi, ok := v.High.(*ssa.BinOp)
+				if !ok || hi.Op != token.SUB {
+					return nil, false
+				}
+				if k, isK := constInt(hi.Y); !isK || k != 1 {
+					return nil, false
+				}
+				lc, ok := hi.X.(*ssa.Call)
+				if !ok {
+					return nil, false
+				}
+				if bi, isB := lc.Call.Value.(*ssa.Builtin); !isB || bi.Name() != "len" || !curLoad(lc.Call.Args[0], x) {
+					return nil, false
+				}
+				ev[x] = "POP"
+				pop = true
+			default:
+				return nil, false
+			}
+		default:
+			return nil, false
+		}
+	}
+	return ev, push && pop
+}
+
+// onlyStore reports whether st is the only store to the cell a, in its function and in every
+// closure that captures it (transitively), and the cell's address goes nowhere else.
+func onlyStore(a ssa.Value, st *ssa.Store) bool {
+	refs := a.Referrers()
+	if refs == nil {
+		return false
+	}
+	for _, ref := range *refs {
+		switch x := ref.(type) {
+		case *ssa.Store:
+			if x != st || x.Addr != a {
+				return false
+			}
+		case *ssa.UnOp:
+			if x.Op != token.MUL {
+				return false
+			}
+		case *ssa.MakeClosure:
+			fn := x.Fn.(*ssa.Function)
+			for i, b := range x.Bindings {
+				if b == a && !onlyStore(fn.FreeVars[i], nil) {
+					return false
+				}
+			}
+		case *ssa.DebugRef:
+		default:
+			return false
+		}
+	}
+	return true
+}
+
+// balanceWith checks the pairing conditions for one tracking web.
+func balanceWith(c *Ctx, fn *ssa.Function, P *Prover, loops map[*ssa.BasicBlock]map[*ssa.BasicBlock]bool, loopKind map[*ssa.BasicBlock]string, inSK func(*ssa.BasicBlock) *ssa.BasicBlock, evAt map[ssa.Instruction]string, current func(w ssa.Value, test *ssa.BasicBlock) bool) (bool, string) {
+	for in := range evAt {
+		if inSK(in.Block()) != nil {
+			return false, "the stack is changed inside a Step/Backstep loop"
 		}
 	}
 	// forward: first events after position (b, i)
@@ -497,24 +701,16 @@ func balanceWith(c *Ctx, fn *ssa.Function, P *Prover, loops map[*ssa.BasicBlock]
 				continue
 			}
 			w := lc.Call.Args[0]
-			if _, inWeb := web[w]; !inWeb {
-				continue
-			}
 			// w must be the current version at the test: no push/pop between its definition and the test,
 			// and none between the test and the return
-			mid := map[string]bool{}
-			backward(p, len(p.Instrs), map[*ssa.BasicBlock]bool{}, mid)
-			okCur := true
-			if win, isIn := w.(ssa.Instruction); isIn {
-				// walking back from the test, the first definition of the web met on every path is w itself
-				okCur = firstDefIs(p, web, win)
+			if !current(w, p) {
+				continue
 			}
 			tail := map[string]bool{}
 			backwardUntil(b, len(b.Instrs)-1, p, evAt, tail)
-			if okCur && len(tail) == 0 {
+			if len(tail) == 0 {
 				guarded = true
 			}
-			_ = mid
 		}
 		if !guarded {
 			return false, fmt.Sprintf("the return at %s is reachable while the stack may be non-empty", c.instrPos(ret))
